@@ -40,6 +40,10 @@ C04_OBLIGATIONS = _inits("C04_CentralFirstExactOnQuadratics", "C04_LowerEdgeFirs
 C04_CLAIM = ("Apalache: every stencil the specification gives for the first and second derivative (interior, both ends, short lines) reproduces "
              "the derivative of the polynomials it is exact for, for unbounded integer coefficients, positions and cell sizes "
              "(spec/C04Core.tla; %d of %d obligations, reported, not relied on)")
+C06_CLAIM = ("Apalache: along a line of ANY length with values of any size the cumulative integral at the last cell plus half that cell equals "
+             "the directional integral (sum times cell length), the mean times the extent equals the integral, and sums / integrals / "
+             "cumulative integrals are linear in the field (spec/C06Core.tla, inductive invariant of `take the next cell`; %d of %d "
+             "obligations, reported, not relied on)")
 C14_CLAIM = ("Apalache: a subregion inside the mesh region, on cell faces and a whole positive number of cells long stays so under translation, "
              "scaling by any non-zero integer factor about any point and the half turn (spec/C14Core.tla, inductive invariant for "
              "unbounded coordinates; %d of %d obligations, reported, not relied on)")
